@@ -86,7 +86,13 @@ func BuildConfig(rp *plan.RouterPlan, pki *peers.PKI, dir string) (*router.Confi
 		dc := router.DomainSetConfig{Tag: ds.Tag}
 		for j, f := range ds.Files {
 			fp := filepath.Join(dir, fmt.Sprintf("ds%d_%d.txt", i, j))
-			os.WriteFile(fp, []byte(strings.Join(f, "\n")+"\n"), 0o600)
+			body := strings.Join(f, "\n") + "\n"
+			for _, k := range ds.NoFinalNewline {
+				if k == j {
+					body = strings.TrimSuffix(body, "\n")
+				}
+			}
+			os.WriteFile(fp, []byte(body), 0o600)
 			dc.Files = append(dc.Files, fp)
 		}
 		cfg.DomainSets = append(cfg.DomainSets, dc)
